@@ -16,12 +16,12 @@ from .. import names
 RULE = ("each clean (schema, document) is compiled under a baseline option set and 3 variants drawn from normalization {none, rust} x "
         "extra response / variables derives x module visibility {pub, pub(crate), inherited} x custom-scalars module {super, "
         "dedicated module} x extern-enum subsets (consumer enum with the reference wire behaviour) x serde path {::serde, serde, "
-        "graphql_client::_private::serde, two re-exports inside the consumer crate} x delivery {library, derive macro (one member of most groups)}; one member of most groups has no variables derives at all; every document has an operation without variables whose body is built from a `Variables {}` literal; every vector (C01 payloads, C03 corruptions, valid variable assignments) must yield "
+        "graphql_client::_private::serde, two re-exports inside the consumer crate} x delivery {library, derive macro (one member of most groups)}; four fixed groups whose members all declare one enum external, the consumer's enum being strict (no catch-all), under names that change with normalization; one member of most groups has no variables derives at all; every document has an operation without variables whose body is built from a `Variables {}` literal; every vector (C01 payloads, C03 corruptions, valid variable assignments) must yield "
         "the same accept/reject decision, the same re-serialised payload and the same serialised body under all of them. "
         "Non-trivial = group whose variants differ in normalization, extern enums or scalar module; distinct by (schema, document, variant options)")
 
 FLOOR = {"groups": 30, "variant-comparisons": 90, "vectors-compared": 5000, "dim:normalization": 10, "dim:extern_enums": 5, "dim:custom_scalars_module": 5,
-         "dim:serde_path": 5, "dim:visibility": 10, "dim:derives": 10, "dim:derive-delivery": 8, "dim:no-variables-derives": 20}
+         "dim:serde_path": 5, "dim:visibility": 10, "dim:derives": 10, "dim:derive-delivery": 8, "dim:no-variables-derives": 20, "dim:strict-extern-enum": 8}
 
 
 def variant_options(rng, schema, cid, force_dim=None):
@@ -135,7 +135,43 @@ def gen_groups(run, n):
             members.append(c)
             all_dims.append(dims)
         groups.append((members, all_dims))
+    groups += strict_extern_groups(rng)
     return groups
+
+
+def strict_extern_groups(rng):
+    """groups in which EVERY member declares the same enum as external and the consumer's enum is strict (no catch-all): what
+    the operation accepts then depends on the consumer's type alone - under every normalization, derive list, visibility.
+    Enum names that change under normalization (`order_by`, `sortDir`, `HTTPVerb`) and one that does not"""
+    from ..model import Schema, T, NN
+    out = []
+    for gi, en in enumerate(["order_by", "sortDir", "HTTPVerb", "Direction"]):
+        s = Schema()
+        s.add(en, {"kind": "enum", "values": ["asc", "DESC", "Side_Ways"]})
+        s.add("Query", {"kind": "object", "implements": [], "fields": [
+            {"name": "items", "type": T("Int"), "args": [["dir", T(en)]], "deprecated": None},
+            {"name": "order", "type": T(en), "args": [], "deprecated": None},
+            {"name": "orders", "type": NN(("list", NN(T(en)))), "args": [], "deprecated": None}]})
+        doc = {"operations": [{"kind": "query", "name": "Sorted%d" % gi, "vars": [{"name": "dir", "type": T(en), "default": None}],
+                               "sel": [["field", None, "items", "(dir: $dir)", None], ["field", None, "order", None, None], ["field", None, "orders", None, None]]}], "fragments": []}
+        vecs = []
+        for k, (o, os_) in enumerate([("asc", ["DESC"]), ("Side_Ways", []), (None, ["asc", "asc"]), ("sideways", []), ("ASC", ["DESC"]), ("asc", ["nope"]), ("", [])]):
+            vecs.append({"id": "Sorted%d.p%d" % (gi, k), "kind": "resp", "target": "Sorted%d" % gi, "input": {"items": 1, "order": o, "orders": os_}, "expect": {}, "label": "strict-extern"})
+        for k, v in enumerate(["asc", "DESC", None, "sideways", "Asc"]):
+            vecs.append({"id": "Sorted%d.a%d" % (gi, k), "kind": "vars", "target": "Sorted%d" % gi, "input": {"dir": v}, "expect": {}})
+        members, all_dims = [], []
+        for vi, vo in enumerate([{}, {"normalization": "rust"}, {"normalization": "rust", "response_derives": "Serialize,Debug,PartialEq,Clone", "visibility": "pub(crate)"}, {"visibility": "inherited"}]):
+            opts = {"extern_enums": [en], "other_variant": False, "skip_none": False}
+            opts.update(vo)
+            c = C.make_case("x%dv%d" % (gi, vi), s, doc, rng, options=opts, fmt="sdl" if gi % 2 == 0 else "json")
+            c["support"]["extern_enums_strict"] = True
+            if members:
+                c["schema_text"], c["schema_ext"], c["schema_format"] = members[0]["schema_text"], members[0]["schema_ext"], members[0]["schema_format"]
+            c["vectors"] = vecs
+            members.append(c)
+            all_dims.append(["extern_enums", "strict-extern-enum"] + (["normalization"] if vo.get("normalization") else []))
+        out.append((members, all_dims))
+    return out
 
 
 def strip(ob):
